@@ -592,6 +592,111 @@ func ruleKeepFieldsWalk(c *Ctx, r *Rule) {
 			r.Ob(ok, fmt.Sprintf("%s|writes-Plugin.%s", c.fnName(a.fn), fld), a.in.Pos(), "the configured path tree and its buffers are set up at Start only"+ifs(fld == "fieldPaths", ", from cfg.ParseNestedFields(config.Fields)"))
 		}
 	}
+	// each depth's queue owns its storage: the walk of a nested object appends to the next depth's queue
+	// while the parent's queue is pending, so a queue that can grow into another one's backing array
+	// overwrites names that are still to be deleted
+	tables := map[ssa.Value]bool{}
+	var addTable func(v ssa.Value, d int)
+	addTable = func(v ssa.Value, d int) {
+		v = stripConv(v)
+		if tables[v] || d > 3 {
+			return
+		}
+		tables[v] = true
+		// built by a helper or a function literal: what it returns
+		if call, ok := v.(*ssa.Call); ok {
+			var g *ssa.Function
+			if f := call.Call.StaticCallee(); f != nil && c.inModule(f) {
+				g = f
+			} else if mc, isMC := call.Call.Value.(*ssa.MakeClosure); isMC {
+				g, _ = mc.Fn.(*ssa.Function)
+			}
+			if g != nil && g.Blocks != nil {
+				for _, ret := range returnsOf(g) {
+					for _, res := range retResults(ret) {
+						for _, leaf := range phiLeaves(res) {
+							addTable(leaf, d+1)
+						}
+					}
+				}
+			}
+		}
+	}
+	for _, a := range c.fieldAccesses(keepPkg, "Plugin", "fieldsDepthSlice") {
+		if a.write {
+			addTable(a.val, 0)
+		}
+	}
+	isDepthTable := func(v ssa.Value) bool {
+		v = stripConv(v)
+		return isLoadOfField(v, keepPkg, "Plugin", "fieldsDepthSlice") || tables[v]
+	}
+	nEl := 0
+	for _, fn := range c.ModFuncs {
+		if c.pkgOf(fn) != "plugin/action/keep_fields" {
+			continue
+		}
+		for _, b := range fn.Blocks {
+			for _, in := range b.Instrs {
+				st, ok := in.(*ssa.Store)
+				if !ok {
+					continue
+				}
+				ia, ok := st.Addr.(*ssa.IndexAddr)
+				if !ok || !isDepthTable(ia.X) {
+					continue
+				}
+				nEl++
+				r.Inst(1)
+				own := false
+				why := c.path(st.Val)
+				switch x := stripConv(st.Val).(type) {
+				case *ssa.MakeSlice:
+					own = true
+				case *ssa.Slice:
+					// a re-slice of the same queue, or a window with an explicit capacity bound
+					if ld, isLd := stripConv(x.X).(*ssa.UnOp); isLd && ld.Op == token.MUL {
+						if ia2, ok2 := ld.X.(*ssa.IndexAddr); ok2 && isDepthTable(ia2.X) && lin(ia2.Index).equal(lin(ia.Index)) {
+							own = true
+						}
+					}
+					if x.Max != nil {
+						own = true
+					}
+					// make([]T, n, constant): a fresh array sliced once
+					// (allocated in the same block as it is sliced: one array per queue, not one for all)
+					if al, isAl := x.X.(*ssa.Alloc); isAl && al.Heap && al.Block() == x.Block() {
+						refs := al.Referrers()
+						if refs != nil && len(*refs) == 1 {
+							own = true
+						}
+					}
+					if mk, isMk := x.X.(*ssa.MakeSlice); isMk && mk.Block() == x.Block() {
+						if refs := mk.Referrers(); refs != nil && len(*refs) == 1 {
+							own = true
+						}
+					}
+				case *ssa.Call:
+					if app, isApp := isBuiltinCall(x, "append"); isApp {
+						if ld, isLd := stripConv(app.Call.Args[0]).(*ssa.UnOp); isLd && ld.Op == token.MUL {
+							if ia2, ok2 := ld.X.(*ssa.IndexAddr); ok2 && isDepthTable(ia2.X) && lin(ia2.Index).equal(lin(ia.Index)) {
+								own = true
+							}
+						}
+						if sl, isSl := stripConv(app.Call.Args[0]).(*ssa.Slice); isSl {
+							if ld, isLd := stripConv(sl.X).(*ssa.UnOp); isLd && ld.Op == token.MUL {
+								if ia2, ok2 := ld.X.(*ssa.IndexAddr); ok2 && isDepthTable(ia2.X) && lin(ia2.Index).equal(lin(ia.Index)) {
+									own = true
+								}
+							}
+						}
+					}
+				}
+				r.Ob(own, fmt.Sprintf("%s|depth-queue-owns-storage#%d", c.fnName(fn), nEl), st.Pos(), "a depth's queue is a fresh allocation, a re-slice / append of itself, or a window with an explicit capacity bound (found "+why+"): a queue that can grow into the next depth's storage overwrites names still waiting to be deleted")
+			}
+		}
+	}
+	r.Ob(nEl >= 2, name+"|depth-queue-writers", walk.Pos(), fmt.Sprintf("%d stores into the per-depth queues examined", nEl))
 	// constant results
 	for i, ret := range returnsOf(walk) {
 		b, isB := constBool(retResults(ret)[0])
